@@ -328,6 +328,39 @@ def key_ctor(repo, rel):
     except Exception as ex:
         return bad("translator error %s: %s" % (type(ex).__name__, ex))
 
+def inner_ctor(repo):
+    """`InnerCrypto::new(session_key, key)` of the Wrath cipher (src/wrath_header/inner_crypto/mod.rs): the whole body has to be
+
+        let mut h: Hmac<Sha1> = Hmac::<Sha1>::new_from_slice(<key>.as_slice()).unwrap();  h.update(&<session_key>);  let h = h.finalize();
+        let mut inner = Rc4::new(h.into_bytes().as_slice());  let mut pad = [0_u8; <n>];  inner.apply_keystream(&mut pad);  Self { inner }
+
+    -> (HashProg for the RC4 key, number of keystream bytes dropped)"""
+    rel = "src/wrath_header/inner_crypto/mod.rs"
+    bad = lambda why: ("⟨[], HArg.lit [], some %s⟩" % lean_str(why), 0)
+    try:
+        text = gc.load(repo, rel)
+        body = gc.fn_body(text, "new", rel, unique=True)
+        msk = gc.mask_literals(text)
+        sig = re.search(r"\bfn\s+new\s*\(\s*(\w+)\s*:\s*\[u8;\s*SESSION_KEY_LENGTH as usize\]\s*,\s*(\w+)\s*:\s*&\[u8;\s*KEY_LENGTH as usize\]\s*,?\s*\)\s*->\s*Self\s*\{", msk)
+        if not sig: raise Unsupported("signature of new in " + rel)
+        t = norm(body.strip()[1:-1])
+        m = re.fullmatch(r"let mut (\w+):Hmac<Sha1>=Hmac::<Sha1>::new_from_slice\((\w+)\.as_slice\(\)\)\.unwrap\(\);\1\.update\(&(\w+)\);let (\w+)=\1\.finalize\(\);"
+                         r"let mut (\w+)=Rc4::new\(\4\.into_bytes\(\)\.as_slice\(\)\);let mut (\w+)=\[0_u8;([^\]]+)\];\5\.apply_keystream\(&mut \6\);Self\{(?:inner:\5|inner)\}", t)
+        if not m: raise Unsupported("new outside its frame: " + t[:240])
+        if m.group(5) != "inner" and "inner:" + m.group(5) not in t: raise Unsupported("the inner field is not the RC4 object")
+        if m.group(2) != sig.group(2) or m.group(3) != sig.group(1): raise Unsupported("HMAC key / message are not the parameters %s / %s" % (sig.group(2), sig.group(1)))
+        if len({m.group(1), m.group(5), m.group(6), sig.group(1), sig.group(2)}) != 5: raise Unsupported("names")
+        drop = gg.const_expr(repo, text, rel, m.group(7), consts_table(repo))
+        gg.hash_types(text, rel, True, uses_digest=False)
+        gg.fn_header(text, rel, "new")
+        gg.imported_only(text, rel, "Rc4", {"crate::rc4::Rc4"})
+        gg.never_bound(text, rel, ["as_slice", "into_bytes", "unwrap", "apply_keystream"])
+        return ("⟨[HStmt.hmac (HArg.param 1) [HArg.param 0]], HArg.loc 0, none⟩", drop)
+    except (Unsupported, gg.Unsupported, gc.Missing) as ex:
+        return bad(str(ex))
+    except Exception as ex:
+        return bad("translator error %s: %s" % (type(ex).__name__, ex))
+
 def main(repo, outp):
     try: consts = consts_table(repo)
     except Exception: consts = gc.Consts()
@@ -337,6 +370,8 @@ def main(repo, outp):
     for lname, rel in KEY_CTORS:
         prog, idx, prev = key_ctor(repo, rel)
         defs.append("/-- `new` in %s: the key, the initial position, the initial chaining byte -/\ndef %s : HashProg := %s\ndef %sIndex : Nat := %d\ndef %sPrev : Nat := %d" % (rel, lname, prog, lname, idx, lname, prev))
+    prog, drop = inner_ctor(repo)
+    defs.append("/-- `InnerCrypto::new(session_key, key)` in src/wrath_header/inner_crypto/mod.rs: the RC4 key, the number of keystream bytes dropped -/\ndef wrathInnerKey : HashProg := %s\ndef wrathInnerDrop : Nat := %d" % (prog, drop))
     text = ("/- GENERATED by tools/gen_hash.py from the Rust sources on every run. Do not edit. -/\nimport WowSrp.Model.MiniHash\n"
             "namespace WowSrp.Gen.CodeHash\nopen WowSrp.MiniHash\n\n" + "\n\n".join(defs) + "\n\nend WowSrp.Gen.CodeHash\n")
     old = open(outp).read() if os.path.exists(outp) else None
